@@ -211,6 +211,21 @@ CHECKS['C12'] = {
                  'against beancount inventory arithmetic',
 }
 
+CHECKS['C13'] = {
+    'text': 'Bounded symbolic model checking of OPEN / CLOSE / CLEAR: on two ledger skeletons (lots at cost with a sale; a '
+            'currency conversion) with symbolic OPEN and CLOSE dates ranging over every date of a window before, inside and '
+            'after the ledger, for 9 clause subsets and with a filter expression: the original postings of the period are '
+            'returned unchanged and in order, every Assets / Liabilities account totals its balance as of the CLOSE date, '
+            'Income / Expenses carry only the period and clear to zero, every returned transaction balances; the clauses '
+            'equal open, then close, then clear; an earlier unfiltered query does not disable them; a reversed period is '
+            'rejected for every statement kind. beancount.ops.summarize is executed for real under the solver.',
+    'design_ref': 'DESIGN.md section 5, C13',
+    'note': _COMMON_NOTE + ' Amounts and transaction dates are concrete per skeleton; the dates of the clauses are '
+            'symbolic (quick tier: OPEN date over 5 representative dates when both are given; both symbolic in the thorough tier).',
+    'technique': 'symbolic execution (CrossHair/z3) of compiler FROM handling, BeanTable.prepare and summarize against '
+                 'balance-preservation invariants computed from the full ledger',
+}
+
 NOT_APPLICABLE = {
     pid: 'check under construction in this session; not claimed yet'
     for pid in ['C06', 'C11', 'C12', 'C13', 'C14', 'C16', 'C17', 'C18', 'C19', 'C20']
